@@ -18,7 +18,7 @@ RULE = ("Exhaustive: every r x c integer table with entries in {0,1,2} for r,c <
         "Sampled: rectangular tables up to 6 x 6 of one documented type: ints near every dtype boundary of get_dtype "
         "(255/256, 2^16, 2^31, 2^32, 2^63-1, negatives down to -2^63) kept inside the documented range, floats, "
         "booleans, tables with many ties, sparse int/float tables with missing pairs incl. all-missing rows, columns and "
-        "tables; lopsided tables (2-3 x 343-1030 and transposed, a thousand cells and more, weight = f(row)+g(col) with ties, or a few cheap rows) whose optimum is computed exactly from each short-side item's k cheapest partners; every other table is solved under the quiet default printer; short call histories of 2-3 tables of different element types with coinciding extremes (results must not depend on earlier calls). Oracle for every table: the result is one-to-one, uses only existing pairs and reports for each pair "
+        "tables; tall / wide tables of integers beyond 2^53 that differ by far more than float64 rounding; 120-401 x 120-401 tables with a constructed optimum of 0 (a cyclic shift of the diagonal); lopsided tables (2-3 x 343-1030 and transposed, a thousand cells and more, weight = f(row)+g(col) with ties, or a few cheap rows) whose optimum is computed exactly from each short-side item's k cheapest partners; every other table is solved under the quiet default printer; short call histories of 2-3 tables of different element types with coinciding extremes (results must not depend on earlier calls). Oracle for every table: the result is one-to-one, uses only existing pairs and reports for each pair "
         "the table's own entry with its type; for complete tables additionally |matching| = min(r,c) and the total "
         "equals the brute-force minimum over all injections (<= 720 per table; floats with relative tolerance 1e-12); "
         "get_dtype(lo,hi) can represent lo and hi. Non-trivial: non-square, or a tie on the optimum, or a missing pair. "
@@ -36,9 +36,26 @@ DESIGN_REF = 'DESIGN.md section 3, C15'
 SHRINK = {'docs': ['w'], 'lists': ['tables'], 'enums': {'quiet': False}}
 
 
+def _tables_of(case):
+    return [expand_table(t) for t in (case['tables'] if 'tables' in case else [case['w']])]
+
+
 def _beyond_2p53(case, key, detail):
-    tables = case['tables'] if 'tables' in case else [case['w']]
-    return any(isinstance(x, int) and not isinstance(x, bool) and abs(x) > 2 ** 53 for w in tables for r in w for x in r)
+    """F24 is a *precision* finding: the solver works in float64, so with integer weights beyond 2**53 the total may miss the
+    optimum by what rounding those weights can lose - at most (number of pairs) x ulp(largest magnitude). A larger excess is
+    something else and stays a violation."""
+    import re
+    tables = _tables_of(case)
+    big = [abs(x) for w in tables for r in w for x in r if isinstance(x, int) and not isinstance(x, bool) and abs(x) > 2 ** 53]
+    if not big:
+        return False
+    m = re.search(r'total (-?\d+), brute-force optimum (-?\d+)', detail or '')
+    if not m:
+        return False
+    excess = abs(int(m.group(1)) - int(m.group(2)))
+    ulp = 2 ** max(0, max(big).bit_length() - 53)
+    pairs = max(min(len(w), len(w[0]) if w else 0) for w in tables)
+    return excess <= 2 * pairs * ulp
 
 
 PREDICATES = {'weights_beyond_2p53': _beyond_2p53}
@@ -48,6 +65,9 @@ def valid(case):
     if 'tables' in case:
         return isinstance(case['tables'], list) and all(valid({'w': w}) for w in case['tables'])
     w = case.get('w')
+    if isinstance(w, dict):
+        return set(w) == {'__shifted__'} and len(w['__shifted__']) == 3 and all(isinstance(x, int) for x in w['__shifted__']) \
+            and 2 <= w['__shifted__'][0] <= 500 and 0 < w['__shifted__'][1] < w['__shifted__'][0] and w['__shifted__'][2] >= 2
     if not isinstance(w, list) or not all(isinstance(r, list) for r in w):
         return False
     if w and any(len(r) != len(w[0]) for r in w):
@@ -115,6 +135,24 @@ def lopsided(draw):
     return w
 
 
+@st.composite
+def big_square(draw):
+    """a few hundred rows and columns with a known optimum: a cyclic shift of the diagonal costs 0, the diagonal itself costs 1 in total,
+    everything else costs 2..1000 (weights are non-negative, so 0 is the minimum)"""
+    n = draw(st.sampled_from([120, 380, 401]))
+    shift = draw(st.sampled_from([n // 2, n // 2 - 1, 7, n - 1]))
+    fill = draw(st.sampled_from([2, 5, 1000]))
+    return {'__shifted__': [n, shift, fill]}
+
+
+def expand_table(w):
+    if isinstance(w, dict) and set(w) == {'__shifted__'}:
+        n, shift, fill = w['__shifted__']
+        # the diagonal as a whole costs exactly 1 (its first cell), the shifted diagonal 0: the two differ by one unit only
+        return [[0 if j == (i + shift) % n else ((1 if i == 0 else 0) if i == j else fill) for j in range(n)] for i in range(n)]
+    return w
+
+
 BOUNDARY = [0, 1, 127, 128, 255, 256, 65535, 65536, 2 ** 31 - 1, 2 ** 31, 2 ** 32 - 1, 2 ** 32, 2 ** 62, -1, -128, -129,
             -2 ** 15, -2 ** 31, -2 ** 31 - 1]
 
@@ -149,6 +187,12 @@ def strategies():
         'sparse-int': table(st.one_of(st.none(), st.integers(0, 9))),
         'sparse-float': table(st.one_of(st.none(), floats), 4),
         'lopsided': lopsided(),
+        # more rows than columns (and the reverse) with integers beyond 2**53 that differ by far more than float64 rounding
+        'tall-big-int': st.tuples(st.integers(2, 4), st.integers(1, 2), st.booleans()).flatmap(
+            lambda t: st.lists(st.lists(st.sampled_from([2 ** 56, 2 * 2 ** 56, 4 * 2 ** 56, 3 * 2 ** 57, 2 ** 60, 5]), min_size=t[1], max_size=t[1]),
+                               min_size=t[0] + t[1], max_size=t[0] + t[1]).map(
+                lambda w: [[w[i][j] for i in range(len(w))] for j in range(len(w[0]))] if t[2] else w)),
+        'big-square': big_square(),
     }
 
 
@@ -199,7 +243,7 @@ def run_job(job, seed, sink):
         def mk(w):
             cnt[0] += 1
             return {'w': w, 'quiet': True} if cnt[0] % 2 else {'w': w}       # every other table under the quiet default printer
-        hyp_drive(strategies()[job['strategy']].map(mk), job['n'] if job['strategy'] != 'lopsided' else max(6, job['n'] // 20), seed, sink)
+        hyp_drive(strategies()[job['strategy']].map(mk), job['n'] if job['strategy'] not in ('lopsided', 'big-square') else max(3 if job['strategy'] == 'big-square' else 6, job['n'] // (40 if job['strategy'] == 'big-square' else 20)), seed, sink)
         return
     i = 0
     for _, vals, mr, mc in ENUM[job['tier']]:
@@ -237,7 +281,9 @@ def check(case):
         o.label('quiet-printer')
         return o
     out = Outcome()
-    w = case['w']
+    known_zero = isinstance(case['w'], dict)
+    w = expand_table(case['w'])
+    wd = repr(case['w']) if known_zero else (repr(w) if len(w) * (len(w[0]) if w else 0) <= 64 else repr(w)[:300] + '...')
     r = len(w)
     c = len(w[0]) if r else 0
     sparse = any(x is None for row in w for x in row)
@@ -253,31 +299,31 @@ def check(case):
         raise
     tos = [t for t, _ in m.values()]
     if len(set(tos)) != len(tos):
-        out.fail('not-one-to-one', f"table {w!r}: result {dict(m)!r} uses a column twice")
+        out.fail('not-one-to-one', f"table {wd}: result {dict(m)!r} uses a column twice")
         return out
     for f, (t, wt) in m.items():
         if not (0 <= f < r and 0 <= t < c):
-            out.fail('out-of-range', f"table {w!r}: result {dict(m)!r}")
+            out.fail('out-of-range', f"table {wd}: result {dict(m)!r}")
             return out
         if w[f][t] is None:
-            out.fail('uses-missing-pair', f"table {w!r}: pair ({f},{t}) does not exist but is in the result {dict(m)!r}")
+            out.fail('uses-missing-pair', f"table {wd}: pair ({f},{t}) does not exist but is in the result {dict(m)!r}")
             return out
         if wt != w[f][t] or type(wt) is not type(w[f][t]):
-            out.fail('wrong-weight-reported', f"table {w!r}: pair ({f},{t}) reported with weight {wt!r} ({type(wt).__name__}), the table says {w[f][t]!r}")
+            out.fail('wrong-weight-reported', f"table {wd}: pair ({f},{t}) reported with weight {wt!r} ({type(wt).__name__}), the table says {w[f][t]!r}")
             return out
     ties = 0
     if not sparse and r and c:
         if len(m) != min(r, c):
-            out.fail('not-maximum-cardinality', f"table {w!r}: {len(m)} pairs, {min(r, c)} possible")
+            out.fail('not-maximum-cardinality', f"table {wd}: {len(m)} pairs, {min(r, c)} possible")
             return out
         tot = sum(wt for _, wt in m.values())
-        b, ties = brute(w) if max(r, c) <= 8 else brute_lopsided(w)
+        b, ties = (0, 2) if known_zero else (brute(w) if max(r, c) <= 8 else brute_lopsided(w))
         if isinstance(tot, float):
             ok = abs(tot - b) <= 1e-12 * max(1.0, abs(b))      # at most six doubles are added on either side
         else:
             ok = tot == b
         if not ok:
-            out.fail('not-optimal', f"table {w!r}: total {tot!r}, brute-force optimum {b!r}; result {dict(m)!r}")
+            out.fail('not-optimal', f"table {wd}: total {tot!r}, brute-force optimum {b!r}; result {dict(m)!r}")
     if kinds == {'int'} and vals:
         lo, hi = min(vals), max(vals)
         import numpy as np
